@@ -397,3 +397,9 @@ def run(ctx):
         "the lock convoy reads the number of goroutines blocked on the sync.RWMutex from its state words "
         "(go1.23 layout); if that fails it waits a settle delay, if the lock is unreachable the round runs free",
     ]
+
+    # the life cycle of the server, the router and a service around the objects (ServerLife.tla,
+    # design-notes/EXT-shutdown.md): what lies outside C16's statement is reported as observation
+    import ext_shutdown
+    ext_shutdown.run(ctx)
+    phase("serverlife")
